@@ -30,7 +30,7 @@ fn reorient<const FW: u16, const FH: u16, const FAST: bool>(
     assert!(bb.top_left == Point::zero() && bb.size == sz, "[C10] bounding_box() follows the new orientation");
     {
         let c = &mut unsafe { d.dcs() }.c;
-        assert!(c.madctl == expected_madctl(co, o2, ro), "[C10][C14] controller address mode = encoding of the last orientation, colour/refresh bits preserved");
+        assert!(c.madctl == expected_madctl(co, o2, ro), "[C10][C14][C15] controller address mode = encoding of the last orientation, colour/refresh bits preserved");
         assert!(c.madctl_count == 2 + two as u32, "[C10] one address-mode command per set_orientation");
         assert!(c.pixels == 0, "[C10] set_orientation writes no pixels");
         c.arm();
@@ -54,7 +54,7 @@ fn c10_set_pixel_h<const FW: u16, const FH: u16>() {
     let c = &ctl.c;
     assert_framing(c);
     if cfg.exp(x, y) == probe {
-        assert!(c.probe_writes == 1 && c.probe_val == col.wire(), "[C10] pixel placed as for a display built with the new orientation");
+        assert!(c.probe_writes == 1 && c.probe_val == col.wire(), "[C10][C15] pixel placed as for a display built with the new orientation");
     } else {
         assert!(c.probe_writes == 0, "[C10] no other cell changes");
     }
@@ -97,7 +97,7 @@ macro_rules! h {
         }
     };
 }
-//@ props=C10,C08 inst="VModel<Rgb565,3,2>" bounds="loop-free: all cfgs x colour order x refresh order, 1 or 2 symbolic set_orientation calls, then a symbolic in-bounds set_pixel" timeout=600 mem=4
+//@ props=C10,C08,C15 inst="VModel<Rgb565,3,2>" bounds="loop-free: all cfgs x colour order x refresh order, 1 or 2 symbolic set_orientation calls, then a symbolic in-bounds set_pixel" timeout=600 mem=4
 h!(c10_set_pixel_v3x2, 3, c10_set_pixel_h::<3, 2>());
 //@ props=C10,C08 inst="VModel<Rgb565,240,320>" bounds="same" timeout=600 mem=4
 h!(c10_set_pixel_v240x320, 3, c10_set_pixel_h::<240, 320>());
